@@ -5,9 +5,33 @@ import asyncio
 from asyncio import events
 
 
-def msg_k(k):
+BIG = 70000
+_TOKENS = []
+
+
+def msg_k(k, big=False):
     from indi.message.base import Message
+    if big and k % 2 == 0:
+        # longer than any slice a transport might cut a message into
+        return Message(device="D", message="m%03d" % k + "x" * BIG)
     return Message(device="D", message="m%03d" % k)
+
+
+def shown(text, big):
+    """what is recorded of a stream: with long messages, each WHOLE long message stands as a short token"""
+    if not big:
+        return text
+    if not _TOKENS:
+        for base in (0, 100, 200, 300):
+            for k in range(base, base + 40, 2):
+                _TOKENS.append((msg_k(k, True).to_string().decode("latin1"), "[[%d]]" % k))
+    if len(text) > 1000:
+        for t, tok in _TOKENS:
+            if t in text:
+                text = text.replace(t, tok)
+    if len(text) > 4000:
+        text = text[:300] + "...(%d characters that are not whole messages)" % len(text)
+    return text
 
 
 def run_case(c):
@@ -86,7 +110,7 @@ def _run(c, loop):
         events._set_running_loop(loop)
         try:
             h = handlers[i]
-            m = msg_k(k)
+            m = msg_k(k, c.get("big"))
             if kinds[i] == "tcp-client":
                 h.send_message(m)
             else:
@@ -101,7 +125,7 @@ def _run(c, loop):
         raised = None
         try:
             if mv[0] == "route":
-                expected.setdefault(mv[1], []).append(msg_k(mv[2]).to_string())
+                expected.setdefault(mv[1], []).append(msg_k(mv[2], c.get("big")).to_string())
                 route(mv[1], mv[2])
             elif mv[0] == "iter":
                 loop.call_soon(loop.stop)
@@ -115,7 +139,7 @@ def _run(c, loop):
                     p[0].set_result(None)
         except Exception as e:  # noqa
             raised = "%s: %s" % (type(e).__name__, str(e)[:80])
-        steps.append({"nready_before": nready, "out": [b"".join(o).decode("latin1") for o in outs],
+        steps.append({"nready_before": nready, "out": [shown(b"".join(o).decode("latin1"), c.get("big")) for o in outs],
                       "pending": [p is not None and not p[0].done() for p in pend], "raised": raised,
                       "nready_after": len(loop._ready)})
-    return {"status": "ok", "steps": steps, "expected": {str(k): [x.decode("latin1") for x in v] for k, v in expected.items()}}
+    return {"status": "ok", "steps": steps, "expected": {str(k): [shown(x.decode("latin1"), c.get("big")) for x in v] for k, v in expected.items()}}
